@@ -23,6 +23,7 @@ KW_VALUES = {
     'pattern': {'tol': [0.1], 'thres': [0.6], 'n': [1, 2], 'similarity_metric': ['cardinality_score']},
     'hierarchy': {'window': [5.0], 'frame_size': [0.5], 'beta': [2.0], 'transitive': [True]},
     'alignment': {'window': [0.125, 1.0], 'duration': [20.0]},
+    'separation': {'window': [700], 'hop': [350], 'compute_permutation': [True]},
 }
 
 CHORDS = ['C', 'C:min', 'G:7', 'A:min7', 'N', 'F#:maj7', 'Db:maj/3', 'E:sus4', 'X', 'B:dim', 'D:maj(9)', 'G:min/b3']
@@ -138,6 +139,12 @@ def inputs(task, seed, n):
             ri, rl = hier(rng, rng.randint(1, 3), 8.0)
             ei, el = hier(rng, rng.randint(1, 3), [8.0, 6.0, 9.0][small])
             out.append((ri, rl, ei, el))
+        elif task == 'separation':
+            rs = np.random.RandomState(seed * 100 + k)
+            src = rs.randn(2, 1400)
+            if small == 1:
+                src[0, :700] = 0.0
+            out.append((src, src[::-1] * 0.5 + 0.1 * rs.randn(2, 1400)))
         elif task == 'alignment':
             n_t = rng.randint(1, 5)
             r = events(rng, n_t, 0, 10)
